@@ -34,16 +34,26 @@ def _run(P: Dict[str, Any], case: Dict[str, Any], flag: bool, built: Any = None)
     import tawazi
 
     old = tawazi.cfg.RUN_DEBUG_NODES
-    tawazi.cfg.RUN_DEBUG_NODES = flag
+    # the flag is a run-time switch: the value it has while the DAG is described ("describe_flag") must not matter
+    tawazi.cfg.RUN_DEBUG_NODES = bool(case["describe_flag"]) if (built is None and "describe_flag" in case) else flag
     out: Dict[str, Any] = {}
     try:
-        b = built if built is not None else prog.build(P, is_async=bool(case.get("async")), mc=case.get("mc", 2))
-        ids = b.node_ids()
+        if built is not None:
+            b = built
+        elif case.get("nested") and case["mode"] == "call":
+            # the same program called as a DAG inside an outer DAG: `def outer(): return inner()`
+            outer = {"name": "OUT", "params": [], "fns": {}, "ret": ["x", ["v", "w"]],
+                     "body": [{"k": "sub", "prog": P, "args": [], "active": None, "out": "w"}]}
+            b = prog.build(outer, is_async=bool(case.get("async")), mc=case.get("mc", 2))
+        else:
+            b = prog.build(P, is_async=bool(case.get("async")), mc=case.get("mc", 2))
+        tawazi.cfg.RUN_DEBUG_NODES = flag
+        ids = b.node_ids() if not (case.get("nested") and case["mode"] == "call") else {}
         mode = case["mode"]
         ex = sched.Exec("free")
         kw = {}
         sel = case.get("sel") or {}
-        for k, name in (("T", "target_nodes"), ("X", "exclude_nodes"), ("R", "root_nodes")):
+        for k, name in (("T", "target_nodes"), ("X", "exclude_nodes"), ("R", "root_nodes"), ("C", "cache_deps_of")):
             if sel.get(k) is not None:
                 kw[name] = [ids[s] for s in sel[k]]
 
@@ -91,7 +101,10 @@ def run_case(case: Dict[str, Any]) -> CaseResult:
             return res
         res.viol("invalid-accepted", f"a non-debug node depending on a debug node ({case['invalid']}) was accepted at build time")
         return res
-    M = Model({"prog": P, "mc": case.get("mc", 2), "sel": case.get("sel") if case["mode"] == "executor" else None})
+    msel = case.get("sel") if case["mode"] == "executor" else None
+    if msel and msel.get("C") is not None:
+        msel = {"T": msel["C"]}  # executor(cache_deps_of=[n...]) executes what executor(target_nodes=[n...]) executes
+    M = Model({"prog": P, "mc": case.get("mc", 2), "sel": msel})
     debug = {s for s in M.sites if M.spec[s].get("debug")}
     closure = M.selected if M.selected is not None else set(M.sites)
     if case["mode"] == "setup":
@@ -189,6 +202,11 @@ def cases(draw: Any, tier: str) -> Dict[str, Any]:
     case: Dict[str, Any] = {"prog": P, "mc": draw(st.integers(1, 3)), "async": draw(st.booleans()), "mode": mode}
     if draw(st.booleans()):
         case.update(same_instance=True, on_first=draw(st.booleans()), build_flag=draw(st.booleans()))
+    else:
+        if draw(st.booleans()):
+            case["describe_flag"] = draw(st.booleans())
+        if mode == "call" and draw(st.booleans()):
+            case["nested"] = True
     for s in P["body"]:
         # a debug node with a constant argument (the site marker) is never pulled in by the debug rule:
         # most debug sites are therefore called without the marker (their function is used once)
@@ -235,6 +253,8 @@ def cases(draw: Any, tier: str) -> Dict[str, Any]:
             case["sel"] = {"T": [x for x in deps[d]]}
         else:
             case["sel"] = draw(sc.selection_strategy(P))
+        if set(k for k, v in case["sel"].items() if v is not None) == {"T"} and case["sel"]["T"] and draw(st.sampled_from([True, False, False])):
+            case["sel"] = {"C": case["sel"]["T"]}  # the same nodes named through cache_deps_of (no cache file)
     return case
 
 
